@@ -180,6 +180,51 @@ func runC11(w *World, r *Report) {
 		r.check(ok, "forward-after-accept", "sendToAccountant/returns-nil-only-if-AddLeaf-did", w.Pos(f.fn.Pos()), "sendToAccountant succeeds only when the ledger admitted the vertex", "a success return is not dominated by AddLeaf == nil")
 	}
 
+	r.rule("seen-memory", "Flashback.HasHash reports 'seen' only behind a successful lookup of that hash and marks the hash as seen on every path", 2)
+	if f := w.fx(r, "cache", "Flashback", "HasHash"); f != nil {
+		fn := f.fn
+		h := fn.Params[1].Name()
+		var getE []Edge
+		for _, c := range callsBySuffix(fn, "BigCache).Get") {
+			_, a := callArgs(c)
+			if pathOf(a[0]) == h {
+				getE = append(getE, passErrNil(c)...)
+			}
+		}
+		ok := len(getE) > 0
+		for _, ret := range returnsOf(fn) {
+			vals, _ := resultVals(ret, 0)
+			for _, v := range vals {
+				if bv, isC := boolConst(v); isC && !bv {
+					continue
+				}
+				if !behind(ret, getE) {
+					ok = false
+				}
+			}
+		}
+		r.check(ok, "seen-memory", "Flashback.HasHash/true-only-if-present", w.Pos(fn.Pos()), "true is returned only when the hash was found", "a non-false return is not dominated by a successful Get of the hash")
+		marked := false
+		instrsOf(fn, func(in ssa.Instruction) {
+			if d, isD := in.(*ssa.Defer); isD && strings.HasSuffix(calleeName(d), "BigCache).Set") {
+				_, a := callArgs(d)
+				if pathOf(a[0]) == h {
+					// the defer must be registered on every path that can return without a length error
+					marked = true
+					for _, ret := range returnsOf(fn) {
+						if errIndex(fn) >= 0 && !successReturn(ret) {
+							continue
+						}
+						if !d.Block().Dominates(ret.Block()) {
+							marked = false
+						}
+					}
+				}
+			}
+		})
+		r.check(marked, "seen-memory", "Flashback.HasHash/marks-on-every-path", w.Pos(fn.Pos()), "every non-error return leaves the hash marked as seen", "no dominating deferred Set of the hash")
+	}
+
 	r.rule("skip-informed-peers", "the forward loops send to a peer only behind the absent edge of set[addr] for the ranged key of the peer table, under the peer-table lock", 4)
 	for _, name := range []string{"gossipVertex", "gossipTransaction"} {
 		f := w.fx(r, "gossip", "gossiper", name)
